@@ -78,15 +78,21 @@ func vSoakCase(out *vOut, c int) {
 		e     int
 		async bool
 	}
-	plans := make([]plan, nProd*1000)
+	plans := make([]plan, (nProd+1)*1000) // producer nProd = the stall phase
 	for i := range plans {
 		if i%1000 < perProd {
 			plans[i] = plan{e: []int{0, 0, 0, 1, 2}[rnd.IntN(5)], async: rnd.IntN(3) == 0}
 		}
 	}
+	gate := make(chan struct{}) // completions of the stall phase are held back until it is closed
+	var stallHanded atomic.Int64
 	consume := func(_ context.Context, v uint64, done Done) {
 		id := int(v / 1000)
 		ev("hand %d", id)
+		if id/1000 == nProd {
+			stallHanded.Add(1)
+			<-gate
+		}
 		pl := plans[id]
 		var err error
 		if pl.e != 0 {
@@ -116,6 +122,22 @@ func vSoakCase(out *vOut, c int) {
 		out.Linef("end")
 		return
 	}
+	// stall phase: all consumers idle, as many size-1 requests as there are consumers enqueued back to back by one
+	// goroutine, nobody completes: every one of them must be handed over (no request beside an idle consumer)
+	if k := min(nCons, int(capacity)); k >= 2 && !wfr {
+		time.Sleep(2 * time.Millisecond) // let the consumers park in Read
+		for i := 0; i < k; i++ {
+			id := nProd*1000 + i
+			err := q.Offer(context.Background(), uint64(id)*1000+1)
+			ev("ret %d 1 %s", id, vErrStr(err))
+		}
+		deadline := time.Now().Add(2 * time.Second)
+		for stallHanded.Load() < int64(k) && time.Now().Before(deadline) {
+			time.Sleep(100 * time.Microsecond)
+		}
+		ev("stall %d %d", stallHanded.Load(), k)
+	}
+	close(gate)
 	// producers
 	type offer struct {
 		size     int64
